@@ -296,6 +296,21 @@ theorem lstsq_exists_unique [DecidableEq κ] (V : Finset ι) (M : κ → ι → 
     (hindep : ∀ v : κ → F, (∀ i ∈ V, ∑ k, v k * M k i = 0) → v = 0) :
     ∃! w : κ → F, ∀ v, lsqCost V M d w ≤ lsqCost V M d v := C10L.lstsq_exists_unique V M d hindep
 
+/-- **the run-time re-check of the exact oracle is enough**: if the list program `Model.C10.normalResidual` returns zeros for a reply
+`w` (this is what the driver tests, in exact rational arithmetic, before it attaches the flag `normal-equations-hold`; the harness
+refuses replies without it), the kept data are synthesised from the kept modes with coefficients `c`, and the kept modes are
+independent, then `w` IS `c`, entry by entry.  Closes the gap left by the unproved Gauss–Jordan solver `lstsqNormal`. -/
+theorem flagged_reply_is_synthesis (modes : List (List F)) (data : List F) (mask : List Bool) (w : List F) (c : Nat → F)
+    (hshape : ∀ col ∈ modes.map (maskSel mask), col.length = (maskSel mask data).length)
+    (hz : ∀ k, k < (modes.map (maskSel mask)).length → nth (normalResidual modes data mask w) k = 0)
+    (hsyn : ∀ i, i < (maskSel mask data).length →
+      nth (maskSel mask data) i = ∑ j ∈ Finset.range (modes.map (maskSel mask)).length, c j * nth ((modes.map (maskSel mask)).getD j []) i)
+    (hindep : ∀ v : Nat → F, (∀ i, i < (maskSel mask data).length →
+      ∑ j ∈ Finset.range (modes.map (maskSel mask)).length, v j * nth ((modes.map (maskSel mask)).getD j []) i = 0) →
+      ∀ j, j < (modes.map (maskSel mask)).length → v j = 0) :
+    ∀ j, j < (modes.map (maskSel mask)).length → nth w j = c j :=
+  C10L.flagged_reply_is_synthesis modes data mask w c hshape hz hsyn hindep
+
 /-- samples outside the valid set (and whatever the modes are there) cannot influence the fit -/
 theorem lstsq_ignores_invalid (V : Finset ι) (M M' : κ → ι → F) (d d' : ι → F)
     (hM : ∀ k, ∀ i ∈ V, M k i = M' k i) (hd : ∀ i ∈ V, d i = d' i) (w : κ → F) :
